@@ -432,3 +432,26 @@ def rule_h(repo, res, R):
     tests = [norm(i.test) for i in ast.walk(fn) if isinstance(i, ast.If)]
     covers_negative = any(t in ("%s['bits_left'] <= 0" % st, "%s['bits_left'] < 1" % st) for t in tests)
     res.check(covers_negative, "C20.h", "decoder.io.read_bitb:exhausted-at-or-below-zero", "%s:read_bitb" % dm.rel, "the validator's read_bitb decides exhaustion with `%s`: begun with a negative length (which BitstreamReader treats as exhausted and the property's quantifier includes) it keeps consuming real stream bits, so the two readers disagree on values and positions" % (tests[0] if tests else "?"), by="`bits_left <= 0`")
+    # the validator's reader reports positions in the same coordinates as the other two: bytes from the start of the
+    # *file*, not from where reading began
+    tm, tf = repo.func("decoder.io:tell")
+    st = tf.args.args[0].arg
+    rets = [r for r in ast.walk(tf) if isinstance(r, ast.Return) and r.value is not None]
+    ok = False
+    detail = "?"
+    if len(rets) == 1:
+        v = rets[0].value
+        first = v.elts[0] if isinstance(v, ast.Tuple) and v.elts else v
+        detail = short(first, 70)
+        direct = any(isinstance(c, ast.Call) and norm(c.func) == "%s['_file'].tell" % st for c in ast.walk(first))
+        ok = direct
+        if not direct:
+            # a counter: fine if init_io seeds it from the file's position
+            keys = [const_str(x.slice) for x in ast.walk(first) if isinstance(x, ast.Subscript) and dotted(x.value) == st and const_str(x.slice) not in (None, "current_byte", "next_bit")]
+            im, ifn = repo.func("decoder.io:init_io")
+            ist = ifn.args.args[0].arg
+            for k in keys:
+                seeds = [a for a in ast.walk(ifn) if isinstance(a, ast.Assign) and any(isinstance(t, ast.Subscript) and dotted(t.value) == ist and const_str(t.slice) == k for t in a.targets)]
+                if seeds and all(any(isinstance(c, ast.Call) and isinstance(c.func, ast.Attribute) and c.func.attr == "tell" for c in ast.walk(a.value)) for a in seeds):
+                    ok = True
+    res.check(ok, "C20.g", "decoder.io.tell:offset-from-file-position", "%s:tell" % tm.rel, "the byte part of the validator reader's position is `%s`, which is not the file's own position (nor a counter that init_io seeds from it): when reading starts past offset 0 it differs from BitstreamReader/BitstreamWriter by the starting offset at every step" % detail, by="state['_file'].tell() - (1 if a byte is loaded)")
